@@ -28,6 +28,8 @@ import (
 	"testing"
 
 	"github.com/lightningnetwork/lnd/channeldb"
+	"github.com/lightningnetwork/lnd/chanstate"
+	"github.com/lightningnetwork/lnd/fn/v2"
 	"github.com/lightningnetwork/lnd/input"
 	"github.com/lightningnetwork/lnd/lnwallet/chainfee"
 	"github.com/lightningnetwork/lnd/lnwire"
@@ -79,7 +81,15 @@ type vchCtx struct {
 	// corpus/chan/fresh_fee_restart.json).
 	noFreshFee bool
 	noFee      bool // VERIF_CHAN_FEE=0: no update_fee in the main stream
-	nSign      int
+
+	// side writers (VERIF_SIDE): per party a SECOND OpenChannel instance of
+	// the same channel, fetched / refreshed at an earlier step and therefore
+	// stale, on which the metadata writers of lnd's other subsystems are
+	// invoked while the state machine keeps running on the live instance.
+	sideOn    bool
+	side      [2]*chanstate.OpenChannel
+	sideStamp [2]uint64
+	nSign     int
 }
 
 // ---------------------------------------------------------------------------
@@ -253,6 +263,7 @@ func (c *vchCtx) partyDump(lc *LightningChannel) map[string]any {
 		disk["pending_remote_h"] = "err:" + vchClass(err)
 	}
 	d["disk"] = disk
+	d["revstate"] = vchRevState(lc.channelState)
 	// The fee rate of a view is the LAST FeeUpdate of the opener's log in
 	// list order: record whether list order agrees with log-index order.
 	d["own_fee_sorted"] = vchFeeSorted(lc.updateLogs.Local)
@@ -262,6 +273,27 @@ func (c *vchCtx) partyDump(lc *LightningChannel) map[string]any {
 		d["peer_log"] = vchLogDump(lc.updateLogs.Remote)
 	}
 	return d
+}
+
+// vchRevState: what the channel knows of the peer's revocation chain: can the
+// store reproduce the secret of the last revoked remote height, and short
+// fingerprints of RemoteCurrentRevocation / RemoteNextRevocation.
+func vchRevState(cs *chanstate.OpenChannel) map[string]any {
+	fp := func(k interface{ SerializeCompressed() []byte }) any {
+		return fmt.Sprintf("%x", k.SerializeCompressed()[:7])
+	}
+	out := map[string]any{"store_ok": true, "cur": nil, "next": nil}
+	if h := cs.RemoteCommitment.CommitHeight; h > 0 {
+		_, err := cs.RevocationStore.LookUp(h - 1)
+		out["store_ok"] = err == nil
+	}
+	if cs.RemoteCurrentRevocation != nil {
+		out["cur"] = fp(cs.RemoteCurrentRevocation)
+	}
+	if cs.RemoteNextRevocation != nil {
+		out["next"] = fp(cs.RemoteNextRevocation)
+	}
+	return out
 }
 
 func vchFeeSorted(u *updateLog) bool {
@@ -704,6 +736,120 @@ func (c *vchCtx) doCrash(p int) {
 	c.record([]any{"crash", vchNames[p]}, res, extra)
 }
 
+// stamp counts the persisted state transitions of p's channel: every sign,
+// revoke and received revocation adds one.
+func (c *vchCtx) stamp(p int) uint64 {
+	cs := c.ch[p].channelState
+	s := cs.LocalCommitment.CommitHeight + 2*cs.RemoteCommitment.CommitHeight
+	if c.ch[p].commitChains.Remote.hasUnackedCommitment() {
+		s++
+	}
+	return s
+}
+
+func (c *vchCtx) sideFetch(p int) error {
+	old := c.ch[p].channelState
+	chans, err := old.Db.FetchOpenChannels(old.IdentityPub)
+	if err != nil {
+		return err
+	}
+	if len(chans) != 1 {
+		return fmt.Errorf("vch: %d channels in db", len(chans))
+	}
+	c.side[p] = chans[0]
+	c.sideStamp[p] = c.stamp(p)
+	return nil
+}
+
+var vchSideKinds = []string{
+	"real_scid", "real_scid", "alias", "conf_height", "close_conf",
+	"mark_open", "status", "shutdown_info",
+}
+
+// doSide invokes one of the metadata writers that lnd's other subsystems
+// (funding manager, chain watcher, peer, switch) call on THEIR OpenChannel
+// instance of a live channel.  None of them may change what the state machine
+// persisted.  kinds "refresh" / "refetch" only bring the stale instance up to
+// date (no write).
+func (c *vchCtx) doSide(p int, kind string) string {
+	if c.side[p] == nil {
+		if err := c.sideFetch(p); err != nil {
+			c.abort = "side_fetch:" + vchClass(err)
+			return c.abort
+		}
+	}
+	st := c.side[p]
+	staleBy := c.stamp(p) - c.sideStamp[p]
+	res := vchSafe(func() error {
+		switch kind {
+		case "refresh":
+			err := st.Refresh()
+			if err == nil {
+				c.sideStamp[p] = c.stamp(p)
+			}
+			return err
+		case "refetch":
+			return c.sideFetch(p)
+		case "real_scid":
+			return st.MarkRealScid(lnwire.NewShortChanIDFromInt(
+				uint64(700000+len(c.steps))<<40 | 1<<16,
+			))
+		case "alias":
+			return st.MarkScidAliasNegotiated()
+		case "conf_height":
+			h := uint32(1000 + len(c.steps))
+			st.SetBroadcastHeight(h - 1)
+			return st.MarkConfirmationHeight(h)
+		case "close_conf":
+			err := st.MarkCloseConfirmationHeight(
+				fn.Some(uint32(2000 + len(c.steps))),
+			)
+			if err != nil {
+				return err
+			}
+			return st.ResetCloseConfirmationHeight()
+		case "mark_open":
+			// same locator: only IsPending flips on disk
+			return st.MarkAsOpen(st.ShortChanID())
+		case "status":
+			bit := chanstate.ChanStatusRemoteCloseInitiator
+			if err := st.ApplyChanStatus(bit); err != nil {
+				return err
+			}
+			return st.ClearChanStatus(bit)
+		case "shutdown_info":
+			return st.MarkShutdownSent(chanstate.NewShutdownInfo(
+				lnwire.DeliveryAddress{0x00, 0x14, 1, 2, 3}, p == 0,
+			))
+		}
+		return fmt.Errorf("vch: unknown side kind %q", kind)
+	})
+	c.record([]any{"side", vchNames[p], kind}, res,
+		map[string]any{"kind": kind, "stale_by": staleBy})
+	if strings.HasPrefix(res, "panic:") {
+		c.abort = "side:" + res
+	}
+	return res
+}
+
+// genSide: a side write on a stale instance, usually followed at once by a
+// reload (observation or restart) - the damage a wrong writer does is only
+// visible until the state machine overwrites it.
+func (c *vchCtx) genSide() {
+	r := c.r
+	p := r.intn(2)
+	c.doSide(p, vchSideKinds[r.intn(len(vchSideKinds))])
+	if c.abort != "" {
+		return
+	}
+	switch x := r.intn(20); {
+	case x < 12 && c.crash:
+		c.doCrash(p)
+	case x < 15 && c.cut:
+		c.doCut(0, 0)
+	}
+}
+
 func (c *vchCtx) doCut(ka, kb int) {
 	k := [2]int{ka, kb}
 	delivered := make([][]any, 0, ka+kb)
@@ -737,6 +883,11 @@ func (c *vchCtx) doCut(ka, kb int) {
 	}
 
 	// Both sides restart from disk.
+	pre := map[string]any{}
+	for p := 0; p < 2; p++ {
+		pre[vchNames[p]] = c.partyDump(c.ch[p])
+	}
+	extra["pre_reload"] = pre
 	for p := 0; p < 2; p++ {
 		var lc *LightningChannel
 		res := vchSafe(func() error {
@@ -755,6 +906,10 @@ func (c *vchCtx) doCut(ka, kb int) {
 	reloaded := map[string]any{}
 	for p := 0; p < 2; p++ {
 		reloaded[vchNames[p]] = c.partyDump(c.ch[p])
+		// a restarted node hands fresh instances to every subsystem
+		if c.sideOn {
+			_ = c.sideFetch(p)
+		}
 	}
 	extra["reloaded"] = reloaded
 
@@ -1166,6 +1321,10 @@ func (c *vchCtx) run(maxSteps int) {
 		switch {
 		case c.cut && x >= 300 && x < 340 && c.calm():
 			c.genDanceCut(r.intn(2))
+		case c.sideOn && x >= 400 && x < 450:
+			c.genSide()
+		case c.sideOn && x >= 450 && x < 465:
+			c.doSide(r.intn(2), []string{"refresh", "refetch"}[r.intn(2)])
 		case c.crash && x < 83:
 			c.doCrash(r.intn(2))
 		case c.cut && x >= 100 && x < 150:
@@ -1204,6 +1363,9 @@ func (c *vchCtx) drain() {
 		if !progressed {
 			break
 		}
+	}
+	if c.abort == "" && c.sideOn {
+		c.doSide(c.r.intn(2), vchSideKinds[c.r.intn(len(vchSideKinds))])
 	}
 	if c.abort == "" && c.crash {
 		c.doCrash(0)
@@ -1341,6 +1503,8 @@ func (c *vchCtx) runScript(ops [][]any) {
 			c.doCrash(vchSide(op[1]))
 		case "cut":
 			c.doCut(int(vchNum(op[1])), int(vchNum(op[2])))
+		case "side":
+			c.doSide(vchSide(op[1]), op[2].(string))
 		case "drain":
 			c.drain()
 		default:
@@ -1403,6 +1567,11 @@ func TestVerifChan(t *testing.T) {
 	crashOn := vEnvInt("VERIF_CRASH", 1) != 0
 	cutOn := vEnvInt("VERIF_CUT", 1) != 0
 	first := int(vEnvInt("VERIF_FIRST_CASE", 0))
+	sideDef := int64(0)
+	if crashOn {
+		sideDef = 1
+	}
+	sideOn := vEnvInt("VERIF_SIDE", sideDef) != 0
 
 	// Explicit schedules first: VERIF_CHAN_SCRIPT=<file> runs ONLY that
 	// file; VERIF_CHAN_CORPUS=<dir> runs every *.json of the directory
@@ -1447,6 +1616,14 @@ func TestVerifChan(t *testing.T) {
 				freeRev:    vEnvInt("VERIF_CHAN_FREE_REV", 0) != 0,
 				noFreshFee: vEnvInt("VERIF_CHAN_NO_FRESH_FEE", 0) != 0,
 				noFee:      vEnvInt("VERIF_CHAN_FEE", 1) == 0,
+				sideOn:     sideOn || sc != nil,
+			}
+			if c.sideOn {
+				for p := 0; p < 2; p++ {
+					if err := c.sideFetch(p); err != nil {
+						t.Fatalf("side fetch: %v", err)
+					}
+				}
 			}
 			steps := maxSteps
 			if r.intn(6) == 0 {
